@@ -36,21 +36,28 @@ def r13_1(ctx) -> None:
     sn = th.self_name
     comp = [n for n in fn_nodes(th) if isinstance(n, ast.ListComp)]
     ok = False
+    fcomp = None
     for c in comp:
         g = c.generators[0]
         if norm(g.iter) == f"{sn}.value_registry" and len(g.ifs) == 1 and norm(g.ifs[0]) == f"{sn}.value_registry[{norm(g.target)}].required" and norm(c.elt) == norm(g.target):
             ok = True
+            fcomp = c
+    # the local that holds the selected member names (whatever it is called)
+    fv = "\0"
+    for nm, ds in eng.flow._defs(th).items():
+        if any(d[0] == "assign" and d[1] is fcomp for d in ds):
+            fv = nm
     app = [n for n in fn_nodes(th) if isinstance(n, ast.Call) and isinstance(n.func, ast.Attribute) and n.func.attr == "append" and n.args and const_value(n.args[0]) == "kty"]
-    muts = [n for n in fn_nodes(th) if isinstance(n, ast.Call) and isinstance(n.func, ast.Attribute) and norm(n.func.value) == "fields"
+    muts = [n for n in fn_nodes(th) if isinstance(n, ast.Call) and isinstance(n.func, ast.Attribute) and norm(n.func.value) == fv
             and n.func.attr in ("append", "extend", "insert", "remove", "pop", "update", "add")]
-    other_defs = [d for d in eng.flow._defs(th).get("fields", []) if not (d[0] == "assign" and isinstance(d[1], ast.ListComp)) and d[0] != "mut-call"]
+    other_defs = [d for d in eng.flow._defs(th).get(fv, []) if not (d[0] == "assign" and isinstance(d[1], ast.ListComp)) and d[0] != "mut-call"]
     if len(muts) != 1 or other_defs:
         ok = False
     calls = [s for s in eng.cg.calls_in(th) if isinstance(s.node, ast.Call) and any(c.short == "rfc7638:thumbprint" for c in s.callees)]
     okc = False
     for s in calls:
         a = s.node.args
-        if len(a) >= 2 and norm(a[0]) == f"{sn}.dict_value" and norm(a[1]) == "fields":
+        if len(a) >= 2 and norm(a[0]) == f"{sn}.dict_value" and norm(a[1]) == fv:
             dm = a[2] if len(a) > 2 else None
             if dm is None or norm(dm) == f"{sn}.thumbprint_digest_method":
                 okc = True
